@@ -239,9 +239,19 @@ pub proof fn lemma_link_expected(max: int, t: Transfer, p: Seq<u8>)
         r is Err ==> final(writer).sent@ == old(writer).sent@,
 //@@ end
 
+/// `send_transfer(...).await` seen as a cancellation point: the send pends while the bounded link->session channel is full, and the caller's future may be
+/// dropped there. `inside` says whether frames of the delivery being sent have already been queued by this call.
+fn send_transfer_cp(Ghost(inside): Ghost<bool>, writer: &mut ChanSender<LinkFrame>, input_handle: InputHandle, transfer: Transfer, payload: Payload, session_stop_reason: &OnceLock<SessionStopReason>) -> (r: Result<(), LinkStateError>)
+    requires !inside,                // [C16.send.no-await-inside-a-delivery] no cancellation point between two frames of one delivery: a send future dropped there leaves a delivery whose last frame never comes (delivered partially)
+    ensures
+        r is Ok ==> final(writer).sent@ == old(writer).sent@.push(LinkFrame::Transfer { input_handle, performative: transfer, payload }),
+        r is Err ==> final(writer).sent@ == old(writer).sent@,
+{ send_transfer(writer, input_handle, transfer, payload, session_stop_reason) }
+
 impl SenderLink {
 //@@ fn file=fe2o3-amqp/src/link/sender_link.rs impl=`impl<T> SenderLink<T> where T: Into<TargetArchetype> + TryFrom<TargetArchetype> + VerifyTargetArchetype + Clone + Send + Sync,` name=send_transfer_without_modifying_unsettled_map
 //@@ param writer : &mut ChanSender<LinkFrame>
+//@@ subst `send_transfer( writer,` => `send_transfer_cp( Ghost(writer.sent@.len() > w0.len()), writer,` rule=R9
 //@@ spec
     ensures
         r is Ok ==> ({
@@ -297,6 +307,11 @@ impl SenderLink {
 //@@ end
 }
 
+/// a cancellation point: what follows (send_payload_with_transfer) awaits capacity on the bounded link->session channel before anything of the delivery is queued;
+/// the caller's future may be dropped there
+fn cancel_point_before_queueing(Ghost(credit_taken): Ghost<bool>)
+    requires !credit_taken,          // [C16.send.no-await-between-credit-and-queueing] a credit consumed (link-credit decremented, delivery-count advanced) for a delivery none of whose frames is queued yet must not be followed by a cancellation point: a send future dropped there leaks the credit and leaves the two delivery-counts out of step, so later sends are starved
+{}
 /// nothing new in the trace is a transfer
 pub open spec fn no_transfer_added(s0: Seq<LinkFrame>, s1: Seq<LinkFrame>) -> bool {
     s1.len() >= s0.len() && s1.take(s0.len() as int) =~= s0 && forall|i: int| s0.len() <= i < s1.len() ==> !((#[trigger] s1[i]) is Transfer)
@@ -346,6 +361,10 @@ impl SenderLink {
         final(self).credits_consumed@ <= old(self).credits_consumed@ + 1,                                            // [C08.send.one-credit-per-delivery] a send consumes at most one link credit ...
         r is Ok ==> final(self).credits_consumed@ == old(self).credits_consumed@ + 1,                                // ... and exactly one when the delivery goes out: never a delivery without a credit
         final(self).credits_consumed@ == old(self).credits_consumed@ ==> no_transfer_added(old(writer).sent@, final(writer).sent@),   // [C08.send.nothing-without-credit] no transfer frame is queued unless a credit was consumed for it
+//@@ entry
+        let ghost __cc0 = self.credits_consumed@;
+//@@ stmt -1
+        cancel_point_before_queueing(Ghost(self.credits_consumed@ > __cc0));
 //@@ end
 }
 
